@@ -34,6 +34,7 @@ class ArmV6:
         self.is_wait_for_event = False
         self.is_wait_for_interrupt = False
         self.executed_opcode = None
+        self.base_register = None
 
     def start(self):
         self.take_reset()
@@ -1816,6 +1817,7 @@ class ArmV6:
 
     def emulate_cycle(self):
         self.select_configurations()
+        self.base_register = None
         try:
             instr = self.fetch_instruction()
             opcode_c = self.decode_instruction(instr)
@@ -1834,6 +1836,10 @@ class ArmV6:
         except SMCException:
             self.registers.take_smc_exception()
         except DataAbortException as dabort_exception:
+            if self.base_register is not None:
+                # a data-aborted instruction leaves its base register with the original value, also when the base
+                # register is in the list of a load that has already transferred it
+                self.registers.set(*self.base_register)
             self.registers.take_data_abort_exception(dabort_exception)
         except HypTrapException:
             self.registers.take_hyp_trap_exception()
@@ -1868,6 +1874,9 @@ class ArmV6:
     def execute_instruction(self, opcode):
         self.registers.changed_registers = [False] * 16
         self.executed_opcode = opcode
+        base = getattr(opcode, 'n', None)
+        if isinstance(base, int) and 0 <= base <= 14:
+            self.base_register = (base, self.registers.get(base))
         if self.in_it_block():
             self.registers.itstate_restored = False
             opcode.execute(self)
